@@ -358,6 +358,11 @@ func wCompare(c *Ctx, rule, what, pos string, enc, dec *wcodec, encAtoms, decAto
 		}
 		if es == ds {
 			r.OK(rule, key+" "+es, pos, "encoder and decoder agree: "+es)
+		} else if strings.Contains(es, "via unpaired:") || strings.Contains(ds, "via unpaired:") {
+			// the bytes come from / go to an in-module helper that is not one of the paired
+			// codec units (an append-style core a unit delegates to, a new helper): what it
+			// emits was not read, so nothing can be compared at this position
+			c.NotDecided(rule, key+fmt.Sprintf(" position %d", i), pos, fmt.Sprintf("%s emits [%s] where %s reads [%s]: the helper is not a paired codec unit and is not followed", enc.label(), es, dec.label(), ds))
 		} else {
 			r.Fail(rule, key, pos, fmt.Sprintf("%s emits [%s] at position %d but %s reads [%s]", enc.label(), es, i, dec.label(), ds))
 		}
